@@ -155,15 +155,19 @@ Section Agg.
 
   (* one leading index: data is the vector along the LAST axis.  An IndexError in any iteration
      leaves no result (None); otherwise the stores of all iterations are applied in loop order. *)
-  Definition c17_face_row_body (sorted_ind : list Z) (t : table) (data : list A)
+  (* the loop body applied to a list of (face, index row) gathers in the given processing order *)
+  Definition c17_face_row_of_gathers (gs : list (Z * list Z)) (t : table) (data : list A)
     : option (list (option B)) :=
     match c17_all_some (map (fun g => match c17_gather data (snd g) with
                                       | Some vals => Some (fst g, agg vals)
-                                      | None => None end)
-                            (c17_gathers_with sorted_ind t)) with
+                                      | None => None end) gs) with
     | Some ws => Some (c17_scatter (repeat None (length t)) ws)
     | None => None
     end.
+
+  Definition c17_face_row_body (sorted_ind : list Z) (t : table) (data : list A)
+    : option (list (option B)) :=
+    c17_face_row_of_gathers (c17_gathers_with sorted_ind t) t data.
 
   (* result = None before the loop; the buffer is allocated at the first store (with the dtype the
      reduction produces — dtypes are not modelled).  Without faces the loop body never runs and no
@@ -243,6 +247,63 @@ Fixpoint c17_dim_size (dims : list c17_dim) (shape : list Z) (d : c17_dim) : opt
   match dims, shape with
   | x :: dims', s :: shape' => if c17_dim_eqb x d then Some s else c17_dim_size dims' shape' d
   | _, _ => None
+  end.
+
+(* ------------------------------------------------------------------------------------------ *)
+(* frame: the call reads the grid's tables and returns them untouched                            *)
+
+Record c17_grid_state := { c17_st_face_nodes : table; c17_st_npf : list Z }.
+
+Definition c17_face_call {A B} (agg : list A -> B) (st : c17_grid_state) (data : list (list A))
+  : option (list (list (option B))) * c17_grid_state :=
+  (c17_node_to_face agg (c17_st_face_nodes st) data, st).
+
+(* ------------------------------------------------------------------------------------------ *)
+(* defective variants (the classes of seeded changes), kept to be refuted                        *)
+
+(* (a) the shared n_nodes_per_face array is sorted IN PLACE: afterwards argsort of it is the
+       identity, so partition k is paired with the first faces in table order *)
+Definition c17_gathers_inplace_sort (t : table) : list (Z * list Z) :=
+  let npf_sorted := c17_isortZ (n_nodes_per_face t) in
+  flat_map (fun it => map (fun f => (f, firstn (Z.to_nat (fst it)) (nth (Z.to_nat f) t [])))
+                          (snd it))
+           (c17_loop (c17_partitions_with (c17_argsort npf_sorted) npf_sorted)).
+
+(* (b) the permutation is applied instead of its inverse: partition values are stored at the
+       positions start..end of the sorted order, not at face_inds *)
+Definition c17_positional_writes {B} (ws : list (Z * B)) : list (Z * B) :=
+  combine (c17_iota (length ws)) (map snd ws).
+
+Section AggBad.
+  Context {A B : Type}.
+  Variable agg : list A -> B.
+  Definition c17_face_row_inplace_sort (t : table) (data : list A) : option (list (option B)) :=
+    c17_face_row_of_gathers agg (c17_gathers_inplace_sort t) t data.
+  Definition c17_face_row_positional (t : table) (data : list A) : option (list (option B)) :=
+    match c17_all_some (map (fun g => match c17_gather data (snd g) with
+                                      | Some vals => Some (fst g, agg vals)
+                                      | None => None end) (c17_gathers t)) with
+    | Some ws => Some (c17_scatter (repeat None (length t)) (c17_positional_writes ws))
+    | None => None
+    end.
+End AggBad.
+
+(* ------------------------------------------------------------------------------------------ *)
+(* dtype of the result, as NumPy promotes (both destinations, since fix 997ba86d)                *)
+
+Inductive c17_dtype := C17_bool | C17_int32 | C17_int64 | C17_float32 | C17_float64.
+Inductive c17_aggname := C17_mean | C17_max | C17_min | C17_prod | C17_sum | C17_std | C17_var
+                       | C17_median | C17_all | C17_any.
+
+Definition c17_is_float (d : c17_dtype) : bool :=
+  match d with C17_float32 | C17_float64 => true | _ => false end.
+
+Definition c17_result_dtype (a : c17_aggname) (src : c17_dtype) : c17_dtype :=
+  match a with
+  | C17_all | C17_any => C17_bool
+  | C17_max | C17_min => src
+  | C17_sum | C17_prod => if c17_is_float src then src else C17_int64          (* bool/int32/int64 -> int64 *)
+  | C17_mean | C17_std | C17_var | C17_median => if c17_is_float src then src else C17_float64
   end.
 
 (* ------------------------------------------------------------------------------------------ *)
